@@ -21,16 +21,19 @@ def r1(ctx):
              'field\'s own message bytes')
     b = ctx.P.body(EF + '::ExtensionFieldData::deserialize')
     d = one(b.calls(r'RawEncryptedField::decrypt$'), 'decrypt call')
-    a = [N(x) for x in b.call_args(d)]
-    ctx.check('deserialize|aad', a[2] == 'index::index(data, RangeTo{end: (header_size + offset)})', 'associated data is `%s`' % a[2], d.where(), sample=a[2])
-    off = [i for i, l in enumerate(b.locals) if l.get('name') == 'offset']
-    ov = [S(b.local_term(i)) for i in off]
-    ctx.check('deserialize|offset-from-streamer', len(ov) == 1 and re.search(r'ExtensionFieldStreamer::next\(.*\) as Some\)\.0\)\) as Continue\)\.0\.0$|as Continue\)\.0\.0$', ov[0]) is not None and 'deserialize_sequence(index::index(data, RangeFrom{start: header_size})' in ov[0],
-              'offset is `%s`' % [o[-120:] for o in ov], sample=[o[-160:] for o in ov])
-    ctx.check('deserialize|cipher-arg', re.match(r'^\w+::as_ref\(cipher\)$|^cipher$', a[1]) is not None or 'cipher' in a[1], 'cipher argument `%s`' % a[1], d.where(), sample=a[1])
+    a = [S(x) for x in b.call_args(d)]
+    # item = the (offset, field) pair yielded by the field streamer over data[header_size..], in expanded form
+    m = re.match(r'^index::index\(data, RangeTo\{end: \(header_size \+ (?P<item>\(Result::branch\(.*ExtensionFieldStreamer::next\(.*\) as Continue\)\.0)\.0\)\}\)$', a[2], re.S)
+    ctx.check('deserialize|aad', m is not None, 'associated data is `%s ... %s`' % (a[2][:80], a[2][-80:]), d.where(), sample=a[2][:60])
+    item = m.group('item') if m else ''
+    ctx.check('deserialize|offset-from-streamer', 'deserialize_sequence(index::index(data, RangeFrom{start: header_size})' in item,
+              'the offset does not come from the streamer over data[header_size..]: `%s`' % item[-160:], sample=item[-100:])
+    ctx.check('deserialize|cipher-arg', 'cipher' in a[1], 'cipher argument `%s`' % a[1][:120], d.where(), sample=a[1][:80])
     fm = one(b.calls(r'RawEncryptedField::from_message_bytes$'), 'from_message_bytes')
-    ctx.check('deserialize|encrypted-from-field', N(b.call_args(fm)[0]) == 'field.message_bytes', 'authenticator parsed from `%s`' % N(b.call_args(fm)[0]), fm.where(), sample=N(b.call_args(fm)[0]))
-    ctx.guard(b, fm, 'field-is-authenticator', fact_cmp('Eq', r'^field\.type_id$', r'NtsEncryptedField', names=True), key='deserialize|from_message_bytes|type')
+    got = S(b.call_args(fm)[0])
+    ctx.check('deserialize|encrypted-from-field', bool(item) and got == item + '.1.message_bytes', 'authenticator parsed from `%s`' % got[-120:], fm.where(), sample=got[-60:])
+    ctx.guard(b, fm, 'field-is-authenticator', lambda f: bool(item) and (lambda c: c is not None and c[0] == 'Eq' and S(c[1]) == item + '.1.type_id' and 'NtsEncryptedField' in S(c[2]))(cmp_of(f)),
+              key='deserialize|from_message_bytes|type')
     dec = ctx.P.body(EF + '::RawEncryptedField::decrypt')
     c = one(dec.calls(r'Cipher::decrypt$'), 'cipher.decrypt in RawEncryptedField::decrypt')
     a = [S(x) for x in dec.call_args(c)]
@@ -61,7 +64,11 @@ def r3(ctx):
              'a missing cipher or a decrypt failure sets is_valid_nts = false; the function returns Ok only with is_valid_nts true')
     b = ctx.P.body(EF + '::ExtensionFieldData::deserialize')
     ok = fact_is(r'^RawEncryptedField::decrypt\(', 'Ok')
-    sites = [s for s in b.calls(r'Vec::append$|Extend::extend$')] + [s for s in b.assigns(lambda pl: not pl['p']) if s.kind == 'assign' and b.local_name(s.data['place']['l']) == 'cookie'
+    # the two mutable locals of the loop are found by type, not by name: the cookie slot (Option<DecodedServerCookie>) and the validity flag (the bool set to false)
+    cookie_l = {i for i, l in enumerate(b.locals) if l.get('user') and 'DecodedServerCookie' in l['ty'] and l['ty'].startswith('core::option::Option<')}
+    flag_l = {i for i, l in enumerate(b.locals) if l.get('user') and l['ty'] == 'bool' and
+              sorted(written_value(b, Site_) for Site_ in b.assigns(lambda pl, i=i: not pl['p'] and pl['l'] == i) if Site_.kind == 'assign')[:1] == ['0']}
+    sites = [s for s in b.calls(r'Vec::append$|Extend::extend$')] + [s for s in b.assigns(lambda pl: not pl['p']) if s.kind == 'assign' and s.data['place']['l'] in cookie_l
                                                                     and 'Option::None' != written_value(b, s)[:12]]
     n = 0
     for s in sites:
@@ -71,7 +78,7 @@ def r3(ctx):
         n += 1
         ctx.guard(b, s, 'decrypt-ok', ok, key='deserialize|%s|decrypt-ok' % site_desc(b, s))
     ctx.check('deserialize|promotion-sites', n >= 3, 'promotion sites found: %d' % n, sample=n)
-    falses = [s for s in b.assigns(lambda pl: not pl['p']) if s.kind == 'assign' and b.local_name(s.data['place']['l']) == 'is_valid_nts' and written_value(b, s) == '0']
+    falses = [s for s in b.assigns(lambda pl: not pl['p']) if s.kind == 'assign' and s.data['place']['l'] in flag_l and written_value(b, s) == '0']
     conds = []
     for s in falses:
         if b.must_pass(s.bb, fact_is(r'CipherProvider::get\(', 'None')):
